@@ -327,6 +327,12 @@ func decodeBatchToMem(data []byte, expectSeq uint64, mdb *memdb.DB) (seq uint64,
 	if seq < expectSeq {
 		return 0, 0, newErrBatchCorrupted("invalid sequence number")
 	}
+	// The records take seq .. seq+batchLen-1 and recovery continues at
+	// seq+batchLen: neither may leave the range of an internal key's sequence
+	// number (makeInternalKey would panic, here or in every later Get/Put).
+	if seq > keyMaxSeq || uint64(batchLen) > keyMaxSeq-seq {
+		return 0, 0, newErrBatchCorrupted("invalid sequence number")
+	}
 	data = data[batchHeaderLen:]
 	var ik []byte
 	var decodedLen int
